@@ -19,7 +19,8 @@ sys.path.insert(0, str(Path(__file__).resolve().parent.parent / "translate"))
 
 PROP = "C11"
 LEAN_PROPS = "PpciVerif/Props/C11.lean"
-LEAN_TARGETS = ["PpciVerif.Props.C11", "Drivers.C11"]
+LEAN_PROPS_EXTRA = ["PpciVerif/Props/C11T1.lean"]   # T1 translation tie of relocation bodies (harness/t1.py, notes/T1.md)
+LEAN_TARGETS = ["PpciVerif.Props.C11", "Drivers.C11", "PpciVerif.Props.C11T1"]
 LEVEL = "proof"
 LEVEL_TEXT = (
     "Lean theorems over a model of the linker's relocation step (symbol value = symbol offset + section address, site address = "
@@ -335,6 +336,111 @@ def check_asm(ctx):
 
 
 # ---------------------------------------------------------------------------------------------
+# whole programs: EVERY relocation site of a compiled + linked program (the list-level theorem on real objects)
+
+C_SRC = """
+int g1 = 5; int arr[4]; char msg[6];
+int f(int a) { if (a > 3) return a + g1; return arr[a & 3]; }
+int k(int a, int b) { while (a < b) { a = a + f(b); if (a == 17) break; } return a; }
+int h(int x) { int s = 0; int i; for (i = 0; i < x; i++) { s += f(i) + k(i, x); } return s; }
+void main_(void) { arr[1] = h(7); msg[2] = 1; }
+"""
+HILO_PAIRS = {("abs32_imm20", "abs32_imm12"): False, ("rel_imm20", "rel_imm12"): True}
+
+
+def check_programs(ctx):
+    import logging
+    from ppci.api import cc, link, get_arch
+    from ppci.binutils.layout import Layout, Memory, Section as LSection
+    reqs, meta = [], []
+    for archname, isa in ARCHS.items():
+        layouts = [(0x1000, 0x8000), (0x40000, 0x2000)] + ([(0x7000000, 0x100)] if ctx.thorough else [])
+        for code_addr, data_addr in layouts:
+            try:
+                logging.disable(logging.CRITICAL)
+                obj = cc(io.StringIO(C_SRC), archname)
+                lay = Layout()
+                m1 = Memory("m1"); m1.location = code_addr; m1.size = 0x4000; m1.add_input(LSection("code")); lay.add_memory(m1)
+                m2 = Memory("m2"); m2.location = data_addr; m2.size = 0x1000; m2.add_input(LSection("data")); lay.add_memory(m2)
+                out = link([obj], layout=lay)
+            except Exception as e:  # noqa
+                ctx.note(f"C program for {archname} did not compile/link: {type(e).__name__}: {e}"[:200])
+                continue
+            finally:
+                logging.disable(logging.NOTSET)
+            ctx.count("programs")
+            ctx.count("eval_program_link")
+            rmap = out.arch.isa.relocation_map
+            sites = []
+            rels = list(out.relocations)
+            for r in rels:
+                size = rmap[r.reloc_type].size()
+                sites.append((r.section, r.offset, size))
+            # the decidable hypothesis of the list-level theorem, on the real object
+            overlap = [(a, b) for i, a in enumerate(sites) for b in sites[i + 1:]
+                       if a[0] == b[0] and a[1] < b[1] + b[2] and b[1] < a[1] + a[2]]
+            ctx.count("eval_sites_disjoint")
+            reqs.append(f"disjoint {isa} " + ";".join(f"{r.reloc_type}:{r.section}:{r.offset}" for r in rels))
+            meta.append(("disjoint", not overlap, {"arch": archname, "overlap": overlap[:3]}))
+            if overlap:
+                ctx.note(f"{archname}: overlapping relocation sites in a compiled program: {overlap[:3]}")
+            i = 0
+            while i < len(rels):
+                r = rels[i]
+                sec = out.get_section(r.section)
+                S = out.get_symbol_id_value(r.symbol_id)
+                P = sec.address + r.offset
+                size = sites[i][2]
+                site = bytes(sec.data[r.offset: r.offset + size])
+                case = {"arch": archname, "isa": isa, "reloc": r.reloc_type, "S": S, "P": P, "addend": r.addend, "program": True,
+                        "d": S + r.addend - P, "region": "program"}
+                nxt = rels[i + 1] if i + 1 < len(rels) else None
+                if nxt is not None and (r.reloc_type, nxt.reloc_type) in HILO_PAIRS and nxt.symbol_id == r.symbol_id \
+                        and nxt.section == r.section and nxt.offset == r.offset + 4:
+                    rel = HILO_PAIRS[(r.reloc_type, nxt.reloc_type)]
+                    lo = bytes(sec.data[nxt.offset: nxt.offset + 4])
+                    reqs.append(f"rhilo {site.hex()} {lo.hex()}")
+                    meta.append(("rhilo", None, (dict(case, reloc=r.reloc_type + "+" + nxt.reloc_type), rel)))
+                    i += 2
+                    continue
+                reqs.append(f"rrep {isa} {r.reloc_type} {S} {r.addend} {P}")
+                meta.append(("rrep", "ok", case))
+                reqs.append(f"rtarget {isa} {r.reloc_type} {site.hex()} {P}")
+                meta.append(("rtarget", "ok", case))
+                i += 1
+    out = ctx.driver("C11", reqs) if reqs else []
+    rep = None
+    for rq, (kind, impl, case), m in zip(reqs, meta, out):
+        if kind == "disjoint":
+            if m != ("ok true" if impl else "ok false"):
+                ctx.disagree("sitesDisjoint", rq[:200], impl, m)
+        elif kind == "rrep":
+            rep = m
+            if m == "bad-op":
+                ctx.count("program_site_unmodelled_type")
+        elif kind == "rtarget":
+            if rep != "ok true":
+                if rep == "ok false":
+                    ctx.fail(f"link:{case['reloc']}@{case['isa']}:program-links-unrepresentable",
+                             f"{case['arch']} compiled program: {case['reloc']} at {case['P']} against {case['S']} is not representable but linked", case)
+                continue
+            ctx.count("eval_link_property")
+            ctx.count("program_site_checked")
+            want = case["S"] + (case["addend"] if case["reloc"] == "rel32" else 0)
+            if m != f"ok {want}":
+                ctx.fail(f"link:{case['reloc']}@{case['isa']}:wrong-target-in-program",
+                         f"{case['arch']} compiled program: the {case['reloc']} site at {case['P']} designates {m[3:]}, its symbol is at {case['S']}", case)
+        elif kind == "rhilo":
+            c, rel = case
+            ctx.count("eval_link_property")
+            ctx.count("program_site_checked")
+            want = (c["S"] - c["P"]) % (1 << 32) if rel else c["S"]
+            if m != f"ok {want}":
+                ctx.fail(f"link:{c['reloc']}:wrong-pair-value-in-program",
+                         f"{c['arch']} compiled program: pair at {c['P']} computes {m[3:]}, expected {want}", c)
+
+
+# ---------------------------------------------------------------------------------------------
 # spec validation against LLVM's disassembler (thorough)
 
 LLVM = [("riscv", "b_imm12", "riscv32", [], "63000000"), ("riscv", "b_imm20", "riscv32", [], "6f000000"),
@@ -404,6 +510,7 @@ def check(ctx):
             return
     check_links(ctx)
     check_asm(ctx)
+    check_programs(ctx)
     if ctx.thorough:
         check_llvm(ctx)
     ctx.extra_cov["exhaustive"] = False
@@ -413,3 +520,9 @@ def check(ctx):
 
 def replay(ctx, rp):
     check(ctx)
+
+
+def regen(ctx):
+    """T1: py2lean translation of relocation calc/apply bodies (+ the bitfun helpers they call); harness/t1.py"""
+    from . import t1
+    t1.regen_many(ctx, t1.RELOC_KEYS)
